@@ -250,6 +250,8 @@ C17_DataSingleOK(d, x) ==
          /\ \E a \in d.anchors : a.id = IdOfIri(d, x.iri) /\ a.t = x.t
     [] x.q = "Resolver" ->
          ~x.err /\ \E r \in d.resolvers : r.id = x.id /\ r.url = x.url /\ r.manager = x.manager
+    \* ConvertIRIToHash / ConvertHashToIRI are stateless and inverse to each other
+    [] x.q = "Convert" -> ~x.err /\ x.same_hash /\ x.riri = x.iri
     [] OTHER -> TRUE
 
 =============================================================================
